@@ -38,6 +38,9 @@ CHECKS = {
  "C05": dict(level="exploration", family="fixsafe", ref="6.3",
    technique="deterministic simulation: sync histories disturbed by concurrent-change and I/O faults at the first open of a file, kills after the parity update, unlimited damage, filtered fix; per-file oracle against the harness version store",
    text="Seeded histories leave pending/replaced/deleted blocks behind (partial syncs, syncs during which a file changes or becomes unreadable exactly when sync opens it, sync killed after the parity update), then damage without per-stripe budget and fix with random filters. Every recorded file must hold the recorded bytes (blocks matched by recorded hash) or be reported unrecoverable with failing status; 'recovered' implies correct; nothing unreported and no unknown file is written."),
+ "C14": dict(level="exploration", family="interlock", ref="6.12",
+   technique="deterministic simulation: interlock triggers applied to seeded synced arrays; two-process interleaving at system-call granularity for the lock (first command parked by the file layer at a mutation index)",
+   text="Each documented trigger (disk emptied / rewritten, file zeroed, parity deleted or halved, blocksize / hashsize changed, disk dropped from the configuration), alone or mixed with ordinary changes, must make sync fail with content and parity byte-identical, and proceed with its override. For the lock the first command is parked at seeded mutation indexes while a second command of every kind runs as a real second process: it must be refused with the 'already in use' diagnostic and issue no mutating call whenever the lock is held."),
 }
 NA = [
  ("C02", "pure function of (nd, np, size, buffers, variant): no schedule, clock, fault, crash point or history for a simulator to own"),
